@@ -322,32 +322,45 @@ def jlDeal (G : Grp) (n t i : Nat) (sfb : Bool) (strong : List Int) (weak : List
     ha := zeros n }
   pure (st, Ci.map (Op.bc tagShare), .run)
 
-/-- `t+1` group elements of sender `j`: a missing value ends the loop, a value outside the group is
-    replaced by 0; either way a complaint -/
-def readElems (G : Grp) (tag : Tag) (j : Nat) : Nat → Inbox → List Int → Bool → Bool × Inbox × List Int
-  | 0, I, acc, c => (c, I, acc)
-  | f + 1, I, acc, c =>
-    match I.popB tag j with
-    | (none, I1) => (true, I1, acc)
-    | (some v, I1) =>
-      if checkElement G v then readElems G tag j f I1 (acc ++ [v]) c
-      else readElems G tag j f I1 (acc ++ [0]) true
+/-! ### reading the queues
+
+  Every reader below works on ONE sender's queue (`parse…`: queue → result × rest of the queue); a
+  step applies it to the queue of every sender it listens to (`(List.range n).map`), so what a
+  party learns from sender `j` is a function of `j`'s queue alone, and two parties holding the same
+  queue of `j` learn the same. -/
+
+/-- `rbc->DeliverFrom` on one sender's queue, in instance `tag` -/
+def popQ (tag : Tag) (q : List (Tag × Int)) : Option Int × List (Tag × Int) :=
+  match removeFirst tag q with
+  | none => (none, q)
+  | some (v, r) => (some v, r)
+
+/-- the unread broadcast values of sender `j` -/
+def Inbox.bq (I : Inbox) (j : Nat) : List (Tag × Int) := I.b.getD j []
+/-- the unread private values of sender `j` -/
+def Inbox.pq (I : Inbox) (j : Nat) : List Int := I.p.getD j []
+
+/-- `t+1` group elements: a missing value ends the loop, a value outside the group is replaced by 0;
+    either way a complaint.  Result: `(complaint, rest of the queue, row)` -/
+def parseElems (G : Grp) (tag : Tag) : Nat → List (Tag × Int) → List Int → Bool →
+    Bool × List (Tag × Int) × List Int
+  | 0, q, acc, c => (c, q, acc)
+  | f + 1, q, acc, c =>
+    match popQ tag q with
+    | (none, q1) => (true, q1, acc)
+    | (some v, q1) =>
+      if checkElement G v then parseElems G tag f q1 (acc ++ [v]) c
+      else parseElems G tag f q1 (acc ++ [0]) true
 
 def padRow (t : Nat) (l : List Int) : List Int := l ++ zeros (t + 1 - l.length)
-
-def readC (G : Grp) (st : St) : List Nat → Inbox → List (List Int) → List Nat →
-    Inbox × List (List Int) × List Nat
-  | [], I, C, cm => (I, C, cm)
-  | j :: rest, I, C, cm =>
-    if j = st.i then readC G st rest I C cm
-    else
-      let (c, I1, row) := readElems G tagShare j (st.t + 1) I [] false
-      readC G st rest I1 (C.set j (padRow st.t row)) (if c then cm ++ [j] else cm)
 
 /-- the others' commitments, then the shares `α_ij = f_i(j)`, `α̂_ij = f̂_i(j)` and their private
     transmission (a party with the faulty switch adds one to every `α_ij` it sends, `j ≠ i`) -/
 def jlReadC (G : Grp) (st : St) (I : Inbox) : St × Inbox × List Op × Status :=
-  let (I1, C, cm) := readC G st (List.range st.n) I st.C []
+  let res := fun j => parseElems G tagShare (st.t + 1) (I.bq j) [] false
+  let C := (List.range st.n).map (fun j => if j = st.i then getRow st.C j else padRow st.t (res j).2.2)
+  let cm := (List.range st.n).filter (fun j => j != st.i && (res j).1)
+  let I1 : Inbox := { I with b := (List.range st.n).map (fun j => if j = st.i then I.bq j else (res j).2.1) }
   let srow := (List.range st.n).map (fun j =>
     let v := evalShare G.q st.c (j + 1)
     if j ≠ st.i ∧ st.sfb ∧ st.rS then v + 1 else v)
@@ -360,22 +373,19 @@ def jlReadC (G : Grp) (st : St) (I : Inbox) : St × Inbox × List Op × Status :
 
 /-! ### Share, step 1(b) -/
 
-def readShares (q : Int) (st : St) : List Nat → Inbox → List Int → List Int → List Nat →
-    Inbox × List Int × List Int × List Nat
-  | [], I, s, sp, cm => (I, s, sp, cm)
-  | j :: rest, I, s, sp, cm =>
-    if j = st.i then readShares q st rest I s sp cm
-    else
-      match I.popP j with
-      | (none, I1) => readShares q st rest I1 s sp (cm ++ [j])
-      | (some v, I1) =>
-        let (c1, v') := if absGe v q then (true, (0 : Int)) else (false, v)
-        let s1 := s.set j v'
-        match I1.popP j with
-        | (none, I2) => readShares q st rest I2 s1 sp (cm ++ [j])
-        | (some w, I2) =>
-          let (c2, w') := if absGe w q then (true, (0 : Int)) else (false, w)
-          readShares q st rest I2 s1 (sp.set j w') (if c1 || c2 then cm ++ [j] else cm)
+/-- the two private values of one dealer: `(rest of the queue, α, α̂, complaint)`; `none` = not
+    received (the entry keeps its value), an out-of-range value is replaced by 0 -/
+def parseShare (q : Int) (pq : List Int) : List Int × Option Int × Option Int × Bool :=
+  match pq with
+  | [] => ([], none, none, true)
+  | v :: r =>
+    let c1 := absGe v q
+    let v' : Int := if c1 then 0 else v
+    match r with
+    | [] => ([], some v', none, true)
+    | w :: r2 =>
+      let c2 := absGe w q
+      (r2, some v', some (if c2 then 0 else w), c1 || c2)
 
 /-- equation (4) for every dealer `j` (the own polynomial included) -/
 def check4 (G : Grp) (st : St) (C : List (List Int)) (s sp : List Int) :
@@ -388,7 +398,13 @@ def check4 (G : Grp) (st : St) (C : List (List Int)) (s sp : List Int) :
 
 /-- receive the shares, check, complain -/
 def jlVerify (G : Grp) (st : St) (I : Inbox) : Except Err (St × Inbox × List Op × Status) := do
-  let (I1, s, sp, cm2) := readShares G.q st (List.range st.n) I st.s st.sp st.compl
+  let res := fun j => parseShare G.q (I.pq j)
+  let s := (List.range st.n).map (fun j =>
+    if j = st.i then getI st.s j else match (res j).2.1 with | some v => v | none => getI st.s j)
+  let sp := (List.range st.n).map (fun j =>
+    if j = st.i then getI st.sp j else match (res j).2.2.1 with | some v => v | none => getI st.sp j)
+  let cm2 := st.compl ++ (List.range st.n).filter (fun j => j != st.i && (res j).2.2.2)
+  let I1 : Inbox := { I with p := (List.range st.n).map (fun j => if j = st.i then I.pq j else (res j).1) }
   let cm3 ← check4 G st st.C s sp (List.range st.n) cm2
   let compl := sortUniq st.n cm3
   let cnt := (List.range st.n).map (fun j => if compl.contains j then 1 else 0)
@@ -398,41 +414,31 @@ def jlVerify (G : Grp) (st : St) (I : Inbox) : Except Err (St × Inbox × List O
 
 /-! ### Share, step 1(c) -/
 
-/-- `complainers[who].push_back(j)` -/
-def addComplainer (cps : List (List Nat)) (who j : Nat) : List (List Nat) :=
-  cps.set who (cps.getD who [] ++ [j])
-
-/-- one sender's complaint list: `(counters, complaints_from, complaints, complainers)` -/
-def readComplaints (st : St) (j : Nat) : Nat → Nat → List Nat → Inbox → List Nat → List Nat → List Nat →
-    List (List Nat) → Inbox × List Nat × List Nat × List Nat × List (List Nat)
-  | 0, _, _, I, cnt, cf, cm, cps => (I, cnt, cf, cm, cps)
-  | f + 1, it, dup, I, cnt, cf, cm, cps =>
-    match I.popB tagShare j with
-    | (none, I1) => (I1, cnt, cf, cm ++ [j], cps)
-    | (some v, I1) =>
+/-- one sender's complaint list: `(the accused parties, each once, in the order read;  faulty: a
+    time-out or a repeated entry;  rest of the queue)`.  At most `n+1` entries are read. -/
+def parseCompl (n : Nat) : Nat → Nat → List Nat → Bool → List (Tag × Int) →
+    List Nat × Bool × List (Tag × Int)
+  | 0, _, dup, bad, q => (dup, bad, q)
+  | f + 1, it, dup, bad, q =>
+    match popQ tagShare q with
+    | (none, q1) => (dup, true, q1)
+    | (some v, q1) =>
       let who := getUi v
-      let (cnt', cf', cm', dup', cps') :=
-        if who < st.n ∧ ¬ dup.contains who then
-          (cnt.set who (getN cnt who + 1), (if who = st.i then cf ++ [j] else cf), cm, dup ++ [who],
-           addComplainer cps who j)
-        else if who < st.n then (cnt, cf, cm ++ [j], dup, cps)
-        else (cnt, cf, cm, dup, cps)
-      if who < st.n ∧ it + 1 ≤ st.n then readComplaints st j f (it + 1) dup' I1 cnt' cf' cm' cps'
-      else (I1, cnt', cf', cm', cps')
+      let dup' := if who < n ∧ ¬ dup.contains who then dup ++ [who] else dup
+      let bad' := bad || (decide (who < n) && dup.contains who)
+      if who < n ∧ it + 1 ≤ n then parseCompl n f (it + 1) dup' bad' q1 else (dup', bad', q1)
 
-def collectGo (st : St) : List Nat → Inbox → List Nat → List Nat → List Nat → List (List Nat) →
-    Inbox × List Nat × List Nat × List Nat × List (List Nat)
-  | [], I, cnt, cf, cm, cps => (I, cnt, cf, cm, cps)
-  | j :: rest, I, cnt, cf, cm, cps =>
-    if j = st.i then collectGo st rest I cnt cf cm cps
-    else
-      let (I1, cnt1, cf1, cm1, cps1) := readComplaints st j (st.n + 1) 0 [] I cnt cf cm cps
-      collectGo st rest I1 cnt1 cf1 cm1 cps1
-
-/-- collect the complaints, reveal the shares of the parties that complained against oneself -/
+/-- collect the complaints (`complaints_counter`, `complaints_from`, `complainers`; a sender with a
+    faulty list is accused), reveal the shares of the parties that complained against oneself -/
 def jlCollect (st : St) (I : Inbox) : St × Inbox × List Op × Status :=
-  let (I1, cnt, cf, cm, cps) := collectGo st (List.range st.n) I st.cnt [] [] st.complainers
-  let cfs := sortUniq st.n cf
+  let res := fun j => parseCompl st.n (st.n + 1) 0 [] false (I.bq j)
+  let others := (List.range st.n).filter (fun j => j != st.i)
+  let accusers := fun (w : Nat) => others.filter (fun j => (res j).1.contains w)
+  let cnt := (List.range st.n).map (fun w => getN st.cnt w + (accusers w).length)
+  let cfs := accusers st.i
+  let cm := others.filter (fun j => (res j).2.1)
+  let cps := (List.range st.n).map (fun w => st.complainers.getD w [] ++ accusers w)
+  let I1 : Inbox := { I with b := (List.range st.n).map (fun j => if j = st.i then I.bq j else (res j).2.2) }
   let ans : List Op := if getN cnt st.i > 0 then
       cfs.flatMap (fun (it : Nat) =>
         [Op.bc tagShare (it : Int), Op.bc tagShare (getI st.srow it), Op.bc tagShare (getI st.hrow it)])
@@ -440,49 +446,57 @@ def jlCollect (st : St) (I : Inbox) : St × Inbox × List Op × Status :=
   ({ st with cnt := cnt, cfrom := cfs, compl := cm, complainers := cps }, I1,
    ans ++ [Op.bc tagShare (st.n : Int)], .run)
 
-/-- the answers of dealer `j`: every revealed pair is checked against `j`'s commitments; the party
-    the pair was meant for adopts it; `ans` collects whose complaints were answered (an entry counts
-    as soon as its first value is read) -/
-def readAnswers (G : Grp) (st : St) (j : Nat) : Nat → Inbox → List Int → List Int → List Nat → List Nat →
-    Except Err (Inbox × List Int × List Int × List Nat × List Nat)
-  | 0, I, s, sp, cm, ans => .ok (I, s, sp, cm, ans)
-  | f + 1, I, s, sp, cm, ans =>
-    match I.popB tagShare j with
-    | (none, I1) => .ok (I1, s, sp, cm ++ [j], ans)
-    | (some w, I1) =>
+/-- the answers of one dealer with the commitments `row`, read by party `me` which holds the pair
+    `(s, sp)` of that dealer: every revealed pair is checked against the commitments; the party the
+    pair was meant for adopts it.  Result: `(rest of the queue, the pair held afterwards, faulty,
+    whose complaints were answered)`; an entry counts as an answer as soon as its first value is
+    read; at most `n+1` entries are read -/
+def parseAns (G : Grp) (n : Nat) (row : List Int) (me : Nat) : Nat → List (Tag × Int) → Int → Int → Bool →
+    List Nat → Except Err (List (Tag × Int) × Int × Int × Bool × List Nat)
+  | 0, q, s, sp, bad, ans => .ok (q, s, sp, bad, ans)
+  | f + 1, q, s, sp, bad, ans =>
+    match popQ tagShare q with
+    | (none, q1) => .ok (q1, s, sp, true, ans)
+    | (some w, q1) =>
       let who := getUi w
-      if who ≥ st.n then .ok (I1, s, sp, cm, ans)
+      if who ≥ n then .ok (q1, s, sp, bad, ans)
       else
         let ans1 := ans ++ [who]
-        match I1.popB tagShare j with
-        | (none, I2) => .ok (I2, s, sp, cm ++ [j], ans1)
-        | (some foo0, I2) =>
-          let (c1, foo) := if absGe foo0 G.q then (true, (0 : Int)) else (false, foo0)
-          let cmA := if c1 then cm ++ [j] else cm
-          match I2.popB tagShare j with
-          | (none, I3) => .ok (I3, s, sp, cmA ++ [j], ans1)
-          | (some bar0, I3) => do
-            let (c2, bar) := if absGe bar0 G.q then (true, (0 : Int)) else (false, bar0)
-            let cmB := if c2 then cmA ++ [j] else cmA
+        match popQ tagShare q1 with
+        | (none, q2) => .ok (q2, s, sp, true, ans1)
+        | (some foo0, q2) =>
+          let c1 := absGe foo0 G.q
+          let foo : Int := if c1 then 0 else foo0
+          match popQ tagShare q2 with
+          | (none, q3) => .ok (q3, s, sp, true, ans1)
+          | (some bar0, q3) => do
+            let c2 := absGe bar0 G.q
+            let bar : Int := if c2 then 0 else bar0
             let lhs ← pedF G foo bar
-            let rhs ← commitProd G.p (who + 1) (getRow st.C j)
-            if lhs != rhs then readAnswers G st j f I3 s sp (cmB ++ [j]) ans1
-            else if who = st.i then readAnswers G st j f I3 (s.set j foo) (sp.set j bar) cmB ans1
-            else readAnswers G st j f I3 s sp cmB ans1
+            let rhs ← commitProd G.p (who + 1) row
+            if lhs != rhs then parseAns G n row me f q3 s sp true ans1
+            else if who = me then parseAns G n row me f q3 foo bar (bad || c1 || c2) ans1
+            else parseAns G n row me f q3 s sp (bad || c1 || c2) ans1
 
-/-- one complaint against `j` for every complainer it left without an answer -/
-def unanswered (st : St) (j : Nat) (ans : List Nat) : List Nat :=
-  ((st.complainers.getD j []).filter (fun c => !ans.contains c)).map (fun _ => j)
+/-- the verdict on dealer `j`: `(rest of its queue, the pair held afterwards, disqualified)`.
+    More than `t` complaints disqualify without a look at the answers; otherwise a faulty answer or
+    a complaint left without an answer does -/
+def resolveOne (G : Grp) (st : St) (I : Inbox) (j : Nat) : Except Err (List (Tag × Int) × Int × Int × Bool) :=
+  if getN st.cnt j > st.t then .ok (I.bq j, getI st.s j, getI st.sp j, true)
+  else if j = st.i then .ok (I.bq j, getI st.s j, getI st.sp j, false)
+  else do
+    let (q, s, sp, bad, ans) ←
+      parseAns G st.n (getRow st.C j) st.i (st.n + 1) (I.bq j) (getI st.s j) (getI st.sp j) false []
+    let unans := (st.complainers.getD j []).any (fun c => !ans.contains c)
+    .ok (q, s, sp, bad || unans)
 
-def resolveGo (G : Grp) (st : St) : List Nat → Inbox → List Int → List Int → List Nat →
-    Except Err (Inbox × List Int × List Int × List Nat)
-  | [], I, s, sp, cm => .ok (I, s, sp, cm)
-  | j :: rest, I, s, sp, cm =>
-    if getN st.cnt j > st.t then resolveGo G st rest I s sp (cm ++ [j])
-    else if j = st.i then resolveGo G st rest I s sp cm
-    else do
-      let (I1, s1, sp1, cm1, ans) ← readAnswers G st j (st.n + 1) I s sp cm []
-      resolveGo G st rest I1 s1 sp1 (cm1 ++ unanswered st j ans)
+/-- `mapM` in `Except`, by recursion -/
+def mapE {α β : Type} (f : α → Except Err β) : List α → Except Err (List β)
+  | [] => .ok []
+  | a :: as => do
+    let b ← f a
+    let bs ← mapE f as
+    .ok (b :: bs)
 
 /-- the opening of `Flip`, step 2: `a_i`, `â_i` (a party with the faulty switch adds one) -/
 def openOps (st : St) : Int × Int × List Op :=
@@ -495,7 +509,11 @@ def openOps (st : St) : Int × Int × List Op :=
 /-- the end of `Share` (resolution of the complaints, Qual, the share `α_i`) and, when it returns
     `true`, step 2 of `Flip`: the broadcast of the opening -/
 def jlResolve (G : Grp) (st : St) (I : Inbox) : Except Err (St × Inbox × List Op × Status) := do
-  let (I1, s, sp, cm) ← resolveGo G st (List.range st.n) I st.s st.sp st.compl
+  let res ← mapE (resolveOne G st I) (List.range st.n)
+  let s := res.map (fun r => r.2.1)
+  let sp := res.map (fun r => r.2.2.1)
+  let cm := st.compl ++ (List.range st.n).filter (fun j => (res.getD j ([], 0, 0, false)).2.2.2)
+  let I1 : Inbox := { I with b := res.map (fun r => r.1) }
   let qual := (List.range st.n).filter (fun j => !cm.contains j)
   let alpha := sumMod G.q s qual
   let halpha := sumMod G.q sp qual
@@ -508,22 +526,19 @@ def jlResolve (G : Grp) (st : St) (I : Inbox) : Except Err (St × Inbox × List 
 
 /-! ### Flip, steps 2–4, and Reconstruct -/
 
-def readOpen (q : Int) (st : St) : List Nat → Inbox → List Int → List Int → List Nat →
-    Inbox × List Int × List Int × List Nat
-  | [], I, a, ha, cm => (I, a, ha, cm)
-  | j :: rest, I, a, ha, cm =>
-    if j = st.i ∨ !st.qual.contains j then readOpen q st rest I a ha cm
-    else
-      match I.popB tagFlip j with
-      | (none, I1) => readOpen q st rest I1 a ha (cm ++ [j])
-      | (some v, I1) =>
-        let (c1, v') := if absGe v q then (true, (0 : Int)) else (false, v)
-        let a1 := a.set j v'
-        match I1.popB tagFlip j with
-        | (none, I2) => readOpen q st rest I2 a1 ha (cm ++ [j])
-        | (some w, I2) =>
-          let (c2, w') := if absGe w q then (true, (0 : Int)) else (false, w)
-          readOpen q st rest I2 a1 (ha.set j w') (if c1 || c2 then cm ++ [j] else cm)
+/-- the opening of one member of Qual: `(rest of the queue, a, â, complaint)`; a missing value
+    reads as 0, an out-of-range value is replaced by 0 -/
+def parseOpen (q : Int) (bq : List (Tag × Int)) : List (Tag × Int) × Int × Int × Bool :=
+  match popQ tagFlip bq with
+  | (none, q1) => (q1, 0, 0, true)
+  | (some v, q1) =>
+    let c1 := absGe v q
+    let v' : Int := if c1 then 0 else v
+    match popQ tagFlip q1 with
+    | (none, q2) => (q2, v', 0, true)
+    | (some w, q2) =>
+      let c2 := absGe w q
+      (q2, v', if c2 then 0 else w, c1 || c2)
 
 /-- `g^{a_j} h^{â_j} = C_j0` for the other members of Qual -/
 def checkOpen (G : Grp) (st : St) (a ha : List Int) : List Nat → List Nat → Except Err (List Nat)
@@ -551,7 +566,12 @@ def jlRecNext (G : Grp) (st : St) : St × List Op × Status :=
 
 /-- the others' openings, their check, the list of the accused, entry of `Reconstruct` -/
 def jlReadOpen (G : Grp) (st : St) (I : Inbox) : Except Err (St × Inbox × List Op × Status) := do
-  let (I1, a, ha, cm1) := readOpen G.q st (List.range st.n) I st.a st.ha []
+  let reads := fun (j : Nat) => j != st.i && st.qual.contains j
+  let res := fun j => parseOpen G.q (I.bq j)
+  let a := (List.range st.n).map (fun j => if reads j then (res j).2.1 else getI st.a j)
+  let ha := (List.range st.n).map (fun j => if reads j then (res j).2.2.1 else getI st.ha j)
+  let cm1 := (List.range st.n).filter (fun j => reads j && (res j).2.2.2)
+  let I1 : Inbox := { I with b := (List.range st.n).map (fun j => if reads j then (res j).1 else I.bq j) }
   let cm2 ← checkOpen G st a ha (List.range st.n) cm1
   let racc := sortUniq st.n cm2
   let st1 := { st with a := a, ha := ha, compl := racc, racc := racc, todo := racc }
@@ -560,23 +580,31 @@ def jlReadOpen (G : Grp) (st : St) (I : Inbox) : Except Err (St × Inbox × List
     let (st2, ops, status) := jlRecNext G st1
     pure (st2, I1, ops, status)
 
-def recCollect (G : Grp) (st : St) (it : Nat) : List Nat → Inbox → List Nat → List Int →
-    Except Err (Inbox × List Nat × List Int)
-  | [], I, parties, shares => .ok (I, parties, shares)
-  | jt :: rest, I, parties, shares =>
-    if jt = st.i ∨ st.racc.contains jt then recCollect G st it rest I parties shares
-    else
-      match I.popB (tagRec st.racc) jt with
-      | (none, I1) => recCollect G st it rest I1 parties shares
-      | (some foo, I1) =>
-        match I1.popB (tagRec st.racc) jt with
-        | (none, I2) => recCollect G st it rest I2 parties shares
-        | (some bar, I2) =>
-          if absGe foo G.q || absGe bar G.q then recCollect G st it rest I2 parties shares
-          else do
-            let lhs ← pedF G foo bar
-            let rhs ← commitProd G.p (jt + 1) (getRow st.C it)
-            recCollect G st it rest I2 (if lhs == rhs then parties ++ [jt] else parties) (shares.set jt foo)
+/-- the two values a party publishes for the accused one: `(rest of the queue, the pair)`; `none`
+    when one of them is missing (the second is not waited for when the first is) or out of range -/
+def parseRec (q : Int) (tag : Tag) (bq : List (Tag × Int)) : List (Tag × Int) × Option (Int × Int) :=
+  match popQ tag bq with
+  | (none, q1) => (q1, none)
+  | (some foo, q1) =>
+    match popQ tag q1 with
+    | (none, q2) => (q2, none)
+    | (some bar, q2) => (q2, if absGe foo q || absGe bar q then none else some (foo, bar))
+
+/-- the parties `Reconstruct` listens to: Qual without the accused and oneself, in the order of Qual -/
+def recReaders (st : St) : List Nat := st.qual.filter (fun jt => jt != st.i && !st.racc.contains jt)
+
+/-- verification of the published pairs against the commitments of the accused party `it`: a pair
+    that matches puts its sender on the list of reconstructing parties -/
+def recVerify (G : Grp) (st : St) (it : Nat) (res : Nat → Option (Int × Int)) : List Nat → List Nat → List Int →
+    Except Err (List Nat × List Int)
+  | [], parties, shares => .ok (parties, shares)
+  | jt :: rest, parties, shares =>
+    match res jt with
+    | none => recVerify G st it res rest parties shares
+    | some (foo, bar) => do
+      let lhs ← pedF G foo bar
+      let rhs ← commitProd G.p (jt + 1) (getRow st.C it)
+      recVerify G st it res rest (if lhs == rhs then parties ++ [jt] else parties) (shares.set jt foo)
 
 /-- `Reconstruct`: the shares for the accused party at the head of `todo`; the own share is always
     taken, the others' only when they match the commitments; interpolation at 0 over the first
@@ -585,8 +613,11 @@ def jlRecStep (G : Grp) (st : St) (I : Inbox) : Except Err (St × Inbox × List 
   match st.todo with
   | [] => pure (st, I, [], .ret true)
   | it :: rest => do
+    let readers := recReaders st
+    let res := fun jt => parseRec G.q (tagRec st.racc) (I.bq jt)
+    let I1 : Inbox := { I with b := (List.range st.n).map (fun j => if readers.contains j then (res j).1 else I.bq j) }
     let shares0 := (zeros st.n).set st.i (getI st.s it)
-    let (I1, parties, shares) ← recCollect G st it st.qual I [st.i] shares0
+    let (parties, shares) ← recVerify G st it (fun jt => (res jt).2) readers [st.i] shares0
     if parties.length ≤ st.t then pure (st, I1, [], .ret false)
     else
       match lagrange0 G.q (parties.take (st.t + 1)) (getI shares) with
